@@ -1,6 +1,7 @@
 /- `tower` (view after each message) and `page` (socket-server address extraction) request kinds. -/
 import DriverLib.WorldDrv
 import Wheatley.Model.Page
+import Wheatley.Model.Server
 open Lean Wheatley
 
 namespace Drv
@@ -30,5 +31,23 @@ def handlePage (j : Json) : R Json := do
                ("extract", match Page.extractUrl html with
                   | some u => Json.str (String.ofList u)
                   | none => Json.null)]
+
+def jCells (c : Server.Cells) : Json :=
+  jArr [jNat c.gen, match c.next with | some g => jNat g | none => Json.null, jNat c.size, Json.bool c.ringing]
+
+/-- Sequential outcomes of a racing pair of handlers on the critical-section model. -/
+def handleCs (j : Json) : R Json := do
+  let pair ← strF j "pair"
+  let c0 : Server.Cells := { gen := ← natF j "cur", next := ← optF asNat j "queued", size := ← natF j "size",
+                             ringing := false }
+  let g ← natF j "new"
+  match pair with
+  | "rowgen_size" =>
+    let n ← natF j "new_size"
+    return jObj [("sequential", jArr [jCells (Server.sizeChange n (Server.csRowGen g c0)),
+                                      jCells (Server.csRowGen g (Server.sizeChange n c0))])]
+  | _ =>
+    return jObj [("sequential", jArr [jCells (Server.csLookTo (Server.csRowGen g c0)),
+                                      jCells (Server.csRowGen g (Server.csLookTo c0))])]
 
 end Drv
